@@ -51,7 +51,17 @@ Record R (m : mst) (h : hst) : Prop := {
   R_pend : forall i a b, In (i, a, b) (m_pend m) -> b = true -> a = true;
   R_wcanc : m_wcanc m = map wcanc (waiters (hs h));
   R_hlog : hlog h = length (cblog (hs h));
+  R_dead : m_dead m = map N.of_nat (dead (hs h));
 }.
+
+Lemma existsb_of_nat k l : existsb (N.eqb (N.of_nat k)) (map N.of_nat l) = existsb (Nat.eqb k) l.
+Proof.
+  induction l as [|a l IH]; [reflexivity|]. cbn [map existsb]. rewrite IH. f_equal.
+  destruct (Nat.eqb_spec k a) as [->|Hne]; [apply N.eqb_refl|]. apply N.eqb_neq. lia.
+Qed.
+
+Lemma dead_rel m h : R m h -> x_is_dead m = root_dead (hs h) (kctx (hs h)).
+Proof. intros HR. unfold x_is_dead, root_dead. rewrite (R_ctx _ _ HR), (R_dead _ _ HR). apply existsb_of_nat. Qed.
 
 (* ------------------------------------------------------------------ *)
 (* small facts about the monitors' helper functions *)
@@ -160,8 +170,8 @@ Section Static.
               (sv s = true -> iarg x = sval s).
   Proof.
     intros Hx Hc. destruct HA as (_ & (C1 & _ & C3 & C4 & _) & _ & (CK' & _)).
-    destruct (C1 i x Hx Hc) as (r & R1 & R2 & _ & R4 & R5 & R6). exists r. repeat split; auto.
-    - exact (proj2 (CK' r i R1 R2)).
+    destruct (C1 i x Hx Hc) as (r & R1 & R2 & _ & R4 & R5 & R6 & _). exists r. repeat split; auto.
+    - exact (CK' r i R1 R2).
     - intros Hv. destruct (C3 i x Hx) as [_ G]. rewrite G, R6. exact (proj1 (C4 Hv r R1)).
   Qed.
 
